@@ -241,10 +241,10 @@ func c15modelDomain(ss ...string) bool {
 // strings.ToLower (trusted); the spec is asked about the lower-cased string.
 func (st *c15State) recognise(s string) *c15Rec {
 	l := strings.ToLower(s)
-	if r, ok := st.rec[l]; ok {
+	if r, ok := st.rec[s]; ok {
 		return r
 	}
-	rep := st.c.Drv.Ask("c15.recognise " + c15tok(l))
+	rep := st.c.Drv.Ask("c15.recognise " + c15tok(s) + " " + c15tok(l))
 	r := &c15Rec{}
 	t := &c15tr{toks: strings.Fields(rep)}
 	if t.tok() == "1" {
@@ -263,10 +263,13 @@ func (st *c15State) recognise(s string) *c15Rec {
 						r.name = n
 					}
 				}
+				if s == u.display && r.name == "" {
+					r.name = u.display // the printed name, matched exactly
+				}
 			}
 		}
 	}
-	st.rec[l] = r
+	st.rec[s] = r
 	return r
 }
 
